@@ -93,7 +93,19 @@ def check(case, rec):
         k = np.float64('inf')
     arr = np.array(bits, dtype=bool)
     orig = arr.copy()
-    out = guarded(check_min_burst_cycles, as_layout(arr, case.get('layout', 'c')), min_n_cycles=k)
+    if kt == 'default-after-recompute':
+        # the documented default (3 cycles), asked for after the neighbouring public function was used with another minimum
+        import pandas as pd
+        from bycycle.burst.utils import recompute_edges
+        tbl = pd.DataFrame({'amp_fraction': [0.5] * 8, 'amp_consistency': [np.nan] + [0.9] * 6 + [np.nan], 'period_consistency': [np.nan] + [0.9] * 6 + [np.nan],
+                            'monotonicity': [0.9] * 8, 'period': [10] * 8, 'volt_rise': [1.0] * 8, 'volt_decay': [1.0] * 8,
+                            'sample_peak': np.arange(8) * 10 + 5, 'is_burst': [False, True, True, True, False, False, False, False]})
+        guarded(recompute_edges, tbl, {'amp_fraction_threshold': 0.1, 'amp_consistency_threshold': 0.5, 'period_consistency_threshold': 0.5,
+                                       'monotonicity_threshold': 0.5, 'min_n_cycles': [1, 2, 5, 7][case['k'] % 4]})
+        k = 3
+        out = guarded(check_min_burst_cycles, as_layout(arr, case.get('layout', 'c')))
+    else:
+        out = guarded(check_min_burst_cycles, as_layout(arr, case.get('layout', 'c')), min_n_cycles=k)
     if not isinstance(out, np.ndarray) or out.shape != orig.shape:
         raise Violation('shape', 'returned %r for input of length %d' % (getattr(out, 'shape', type(out)), len(orig)))
     if out.dtype != bool:
@@ -110,7 +122,8 @@ def check(case, rec):
     exp = ref_runs(orig, k)
     if not np.array_equal(out, exp):
         raise Violation('differs-from-reference', 'len=%d k=%s bits[:60]=%s' % (len(bits), k, bits[:60]))
-    again = guarded(check_min_burst_cycles, as_layout(np.array(out, dtype=bool), case.get('layout', 'c')), min_n_cycles=k)
+    again = guarded(check_min_burst_cycles, as_layout(np.array(out, dtype=bool), case.get('layout', 'c')), min_n_cycles=k) if kt != 'default-after-recompute' \
+        else guarded(check_min_burst_cycles, as_layout(np.array(out, dtype=bool), case.get('layout', 'c')))
     if not np.array_equal(again, out):
         raise Violation('not-idempotent', 'len=%d k=%s' % (len(bits), k))
     for old_out, old_exp in HELD:
@@ -160,6 +173,19 @@ def enum_single(tier, shard, nshards):
                 runs = ([pos] if pos else []) + [r] + ([n - r - pos] if n - r - pos else [])
                 for k in (r, r + 1, r - 1):
                     yield {'runs': runs, 'first': pos == 0, 'k': k, 'ktype': ['int', 'float', 'ulp-above', 'ulp-below', 'rel-above'][(idx + k) % 5], 'layout': 'c'}
+    # one probe run of every length among many isolated short runs (implementations that treat "few long" and "many short" runs
+    # on different paths have a seam where the two meet)
+    R = 300 if tier == 'quick' else 700
+    for n_short in (33, 40, 63, 64, 100):
+        for pad in (0, 10, 74):
+            for r in range(2, R + 1):
+                idx += 1
+                if idx % nshards != shard:
+                    continue
+                runs = [1, 1] * n_short + [r] + ([pad] if pad else [])          # True/False alternate: n_short isolated cycles, then the probe
+                yield {'runs': runs, 'first': True, 'k': r + 50, 'ktype': 'int', 'layout': 'c'}
+                if r % 3 == 0:
+                    yield {'runs': runs, 'first': True, 'k': r, 'ktype': 'int', 'layout': 'c'}
     for j, r in enumerate([99999, 100001, 199999, 262144]):
         if j % nshards != shard:
             continue
@@ -183,7 +209,7 @@ def strategy(tier):
             v = not v
         bits = bits[:400]
         k = draw(st.one_of(st.integers(0, 50), st.sampled_from(sorted(set(runs))), st.sampled_from(sorted(set(r + 1 for r in runs)))))
-        ktype = draw(st.sampled_from(['int', 'int', 'float', 'npint', 'frac', 'frac', 'inf-py', 'inf-np', 'ulp-above', 'ulp-below', 'rel-above']))
+        ktype = draw(st.sampled_from(['int', 'int', 'float', 'npint', 'frac', 'frac', 'inf-py', 'inf-np', 'ulp-above', 'ulp-below', 'rel-above', 'default-after-recompute']))
         return {'bits': bits, 'k': k, 'ktype': ktype, 'frac': draw(st.sampled_from([0.25, 0.5, 0.99])), 'layout': draw(st.sampled_from(['c', 'c', 'rev', 'stride', 'col']))}
     return s()
 
